@@ -411,7 +411,7 @@ func (w *World) prelude() string {
 		b.WriteString("(assert (distinct " + strings.Join(w.typeOrder, " ") + "))\n")
 	}
 	b.WriteString("(declare-sort IfaceName 0)\n(declare-fun implements (Type IfaceName) Bool)\n")
-	b.WriteString("(declare-fun kindOf (Type) Int)\n(declare-fun comparableT (Type) Bool)\n(declare-fun elemT (Type) Type)\n")
+	b.WriteString("(declare-fun kindOf (Type) Int)\n(declare-fun comparableT (Type) Bool)\n(declare-fun elemT (Type) Type)\n(declare-fun exactEqT (Type) Bool)\n")
 	for _, n := range w.ifaceOrd {
 		b.WriteString(fmt.Sprintf("(declare-const %s IfaceName)\n", n))
 	}
@@ -443,6 +443,9 @@ func (w *World) prelude() string {
 			b.WriteString(fmt.Sprintf("(assert (comparableT %s))\n", tn))
 		} else if !types.Comparable(t) {
 			b.WriteString(fmt.Sprintf("(assert (not (comparableT %s)))\n", tn))
+		}
+		if exactEq(t) {
+			b.WriteString(fmt.Sprintf("(assert (exactEqT %s))\n", tn))
 		}
 		if p, ok := t.Underlying().(*types.Pointer); ok {
 			if en, ok := w.lookupTypeConst(p.Elem()); ok {
@@ -576,4 +579,24 @@ func (w *World) canonName(t types.Type) string {
 		}
 	}
 	return w.typeStr(t)
+}
+
+// exactEq: == on values of this type is structural equality of the payload (no floats, no interfaces inside).
+func exactEq(t types.Type) bool {
+	switch u := t.Underlying().(type) {
+	case *types.Basic:
+		return u.Info()&(types.IsFloat|types.IsComplex) == 0
+	case *types.Pointer, *types.Chan:
+		return true
+	case *types.Struct:
+		for i := 0; i < u.NumFields(); i++ {
+			if !exactEq(u.Field(i).Type()) {
+				return false
+			}
+		}
+		return true
+	case *types.Array:
+		return exactEq(u.Elem())
+	}
+	return false
 }
